@@ -124,8 +124,11 @@ def run_case(spec, ctx):
         return {'status': 'skip', 'reason': 'exact solve not optimal', 'features': feats}
     exact = float(m.get())
     ex_x = np.asarray(m.solution.x, float)
-    if spec['mode'] == 'pinned' and abs(exact - spec['expected']) > 1e-4 * (1 + abs(exact)):
-        return {'status': 'skip', 'reason': 'exact solve disagrees with closed form (C07)'}
+    if spec['mode'] == 'pinned':
+        if abs(exact - spec['expected']) > 1e-4 * (1 + abs(exact)):
+            return {'status': 'skip', 'reason': 'exact solve disagrees with closed form (C07)'}
+        exact_solver = exact
+        exact = float(spec['expected'])     # the closed form is the more accurate reference
     ex_exp = exponents(f, ex_x)
     in_range = bool(np.all(np.abs(ex_exp) <= 4.0))
     # ---- structure of to_socp
@@ -216,7 +219,8 @@ def run_case(spec, ctx):
         C.solve(m, 'eco')
         if C.optimal(m) and 'Optimal' in str(m.solution.status):
             again = float(m.get())
-            if abs(again - exact) > 1e-6 * (1 + abs(exact)):
+            ref_again = exact_solver if spec['mode'] == 'pinned' else exact
+            if abs(again - ref_again) > 1e-6 * (1 + abs(exact)):
                 detail.append({'what': 'exact solve after soc_solve gives a different optimum',
                                'before': exact, 'after': again})
     except Exception as e:
